@@ -594,6 +594,24 @@ func sessionFacts() {
 	iPut := strings.Index(ob, "batch.Put(ShadowKey(SessionId(*request.SessionId), request.Key), []byte{})")
 	iGet := strings.Index(ob, "batch.Get(SessionKey(SessionId(*request.SessionId)))")
 	okOrder := iGet >= 0 && iDel > iGet && iPut > iDel && strings.Contains(ob, "return proto.Status_SESSION_DOES_NOT_EXIST, nil")
+	// shadow keys are written with url.PathEscape and read back with url.PathUnescape (its inverse; QueryUnescape,
+	// for one, would turn '+' into a space and make the session end delete another key)
+	sesf := parse("server/session.go")
+	smf := parse("server/session_manager.go")
+	sdel := funcDecl(sesf, "session", "delete")
+	sdb := ""
+	if sdel != nil {
+		sdb = squash(src(sdel.Body))
+	}
+	shk := funcDecl(smf, "", "ShadowKey")
+	shb := ""
+	if shk != nil {
+		shb = squash(src(shk.Body))
+	}
+	add("sessionShadowKeyEscapeRoundTrips", "Bool", boolLean(strings.Contains(sdb, "url.PathUnescape(key[len(sessionKey)+1:])") &&
+		!strings.Contains(sdb, "QueryUnescape") && strings.Contains(shb, "url.PathEscape(key)")),
+		"server/session.go: (*session).delete; server/session_manager.go: ShadowKey", "PathEscape when the shadow key is written, PathUnescape when it is read back")
+
 	add("sessionShadowPutBeforeDelete", "Bool", boolLean(!okOrder), "server/session_manager.go: OnPutWithinSession",
 		"false = the session record is looked up first, then the previous owner's shadow is deleted, then the new shadow is written")
 	ini := funcDecl(sm, "sessionManager", "Initialize")
